@@ -102,7 +102,7 @@ theorem kb_readPhase (cfg : Cfg) (s : State) : KeepB s ((readPhase cfg s).1, (re
   unfold readPhase
   split
   · rename_i c cs _
-    have := kb_dataReceived cfg { s with pendingIn := if c.length ≤ 1024 then cs else c.drop 1024 :: cs } (c.take 1024)
+    have := kb_dataReceived cfg { s with pendingIn := if c.length ≤ REACTOR_RECV then cs else c.drop REACTOR_RECV :: cs } (c.take REACTOR_RECV)
     exact ⟨this.1, this.2.1, this.2.2⟩
   · split
     · exact kb_connectionLost s
